@@ -1294,6 +1294,25 @@ pub struct StuckReport {
   pub reason: String,
 }
 
+impl StuckReport {
+  /// True when the report supports a "parked forever although progress was possible" verdict:
+  /// healthy scheduler canary, the unfinished workers were really asleep (kernel view) and
+  /// either a legal nudge released one of them or the history model shows a blocked operation
+  /// enabled. Everything else is inconclusive.
+  pub fn decisive(&self, cfg: &StuckCfg) -> bool {
+    self.canary_max_gap_us <= cfg.canary_limit_us && self.parked != Some(false) && (self.nudge_released || self.model_enabled)
+  }
+  pub fn why_inconclusive(&self, cfg: &StuckCfg) -> String {
+    if self.canary_max_gap_us > cfg.canary_limit_us {
+      format!("stuck window with unhealthy canary ({} us)", self.canary_max_gap_us)
+    } else if self.parked == Some(false) {
+      "quiet window with runnable (starved or spinning) threads: not a parked-forever verdict".to_string()
+    } else {
+      format!("stuck but not decidable: {}", self.reason)
+    }
+  }
+}
+
 pub struct StuckCfg {
   pub quiet: Duration,
   pub confirmations: u32,
